@@ -212,6 +212,14 @@ func (w *World) runPropertySkip(prop string, tmo int, dir string, only map[strin
 	for _, o := range w.lemmaObligations(prop) {
 		all = append(all, o)
 	}
+	if prop == "C14" {
+		for _, f := range w.findFuncs("") {
+			if f.Pkg != nil && f.Pkg.Pkg.Name() == "main" {
+				continue // the CLI's own messages are not part of the emitted script
+			}
+			all = append(all, w.mapOrderObligations(f)...)
+		}
+	}
 	out.nobls = len(all)
 	// solve ledger obligations with the full limit, others with the short one
 	var main, rest []*Obl
